@@ -3,6 +3,7 @@ package main
 import (
 	"go/types"
 	"sort"
+	"strings"
 
 	"golang.org/x/tools/go/ssa"
 )
@@ -445,6 +446,25 @@ func (p *Program) loopMods(x *Exec, fr *Frame, h *ssa.BasicBlock) ([]string, []s
 				d.callees = append(d.callees, in.Fn.(*ssa.Function))
 			case ssa.CallInstruction:
 				p.directCall(d, in.Common(), add)
+				if fr.depth == 0 && fr.contract != nil {
+					var names []string
+					if callee := in.Common().StaticCallee(); callee != nil {
+						names = []string{callee.Name(), funcKey(callee)}
+					} else if in.Common().IsInvoke() {
+						names = []string{in.Common().Method.Name()}
+					}
+					for _, as := range fr.contract.Afters {
+						for _, t := range names {
+							if as.Target == t || strings.HasSuffix(t, "."+as.Target) {
+								for _, g := range fr.contract.Ghosts {
+									if g.Name == as.Name {
+										set[x.ghostVar(fr, g)] = true
+									}
+								}
+							}
+						}
+					}
+				}
 			}
 		}
 	}
